@@ -294,8 +294,11 @@ where
     // Generate number of rows for the range trace.
     let range_table_len = range.get_number_range_checker_rows();
 
-    // Get the trace length required to hold all execution trace steps.
-    let max_len = range_table_len.max(clk as usize).max(chiplets.trace_len());
+    // Get the trace length required to hold all execution trace steps. The system, decoder and
+    // stack segments need one row more than the number of executed cycles: the row which holds the
+    // final state (the first HALT row). Without it, a program which runs for exactly 2^k - 1 cycles
+    // would get its only HALT row overwritten by the random row.
+    let max_len = range_table_len.max(clk as usize + 1).max(chiplets.trace_len());
 
     // pad the trace length to the next power of two and ensure that there is space for the
     // rows to hold random values
